@@ -558,7 +558,13 @@ func (hb *HalfBlockImage) Resize(w int, h int) {
 		y *= 2
 
 		tr, tg, tb, ta := toRGB(img.At(x, y))
-		br, bg, bb, ba := toRGB(img.At(x, y+1))
+		// the last row of an image with an odd height covers a single
+		// pixel: there is nothing below it, which is not the same as
+		// whatever the image reports outside of its bounds
+		var br, bg, bb, ba uint8
+		if y+1 < img.Bounds().Max.Y {
+			br, bg, bb, ba = toRGB(img.At(x, y+1))
+		}
 		// Figure out if one of the alpha channels is transparent
 		// "enough"
 		switch {
